@@ -1,6 +1,6 @@
 """C06 — a serialized task id continues the same tree in another thread/process."""
 from lib.framework import Family
-from lib.coqbridge import Pos, Str, C, Raw, to_coq
+from lib.coqbridge import Pos, Str, C, Raw, to_coq, flat
 
 ID = "C06"
 PROPS_FILE = "Props/C06.v"
@@ -83,7 +83,7 @@ def _unstr(v):
 def model_obs_ids(case, v):
     if "raw" in case:
         return {"back": v[1] if v is not None else None}
-    s, back, tid, tid2, cont = v
+    s, back, tid, tid2, cont = flat(v, 5)
     cont = cont[1] if cont is not None else None
     return {"s": _unstr(s), "back": back[1] if back is not None else None, "tid": _unstr(tid), "tid2": _unstr(tid2),
             "cont_uuid": _unstr(cont[0]) if cont else None,
